@@ -215,6 +215,34 @@ func (c *Canon) of(v ssa.Value) string {
 	case *ssa.Lookup:
 		return c.Of(x.X) + "[" + c.Of(x.Index) + "]"
 	case *ssa.Slice:
+		// a slice of a freshly filled array (variadic arguments, slice literals): render the elements
+		if al, ok := x.X.(*ssa.Alloc); ok && x.Low == nil && x.High == nil {
+			if arr, ok := al.Type().(*types.Pointer).Elem().Underlying().(*types.Array); ok && arr.Len() <= 16 {
+				elems := make([]string, arr.Len())
+				okAll := true
+				for _, ref := range *al.Referrers() {
+					switch ia := ref.(type) {
+					case *ssa.IndexAddr:
+						idx, isC := ConstInt(ia.Index)
+						if !isC || idx < 0 || idx >= arr.Len() {
+							okAll = false
+							continue
+						}
+						for _, r2 := range *ia.Referrers() {
+							if st, ok := r2.(*ssa.Store); ok && st.Addr == ia {
+								elems[idx] = c.Of(st.Val)
+							}
+						}
+					case *ssa.Slice, *ssa.DebugRef:
+					default:
+						okAll = false
+					}
+				}
+				if okAll {
+					return "{" + strings.Join(elems, ",") + "}"
+				}
+			}
+		}
 		lo, hi := "", ""
 		if x.Low != nil {
 			lo = c.Of(x.Low)
@@ -356,10 +384,24 @@ func (c *Canon) inlinable(fn *ssa.Function) bool {
 		return false
 	}
 	for _, in := range b.Instrs[:len(b.Instrs)-1] {
-		switch in.(type) {
+		switch x := in.(type) {
 		case *ssa.Store, *ssa.MapUpdate, *ssa.Send, *ssa.Go, *ssa.Defer, *ssa.Panic, *ssa.RunDefers:
 			return false
 		case *ssa.DebugRef:
+		case ssa.Value:
+			// every computed value must feed the result: a call made only for its effect
+			// would disappear from the canonical form
+			used := false
+			if refs := x.Referrers(); refs != nil {
+				for _, r := range *refs {
+					if _, dbg := r.(*ssa.DebugRef); !dbg {
+						used = true
+					}
+				}
+			}
+			if !used {
+				return false
+			}
 		}
 	}
 	return true
